@@ -143,6 +143,16 @@ func BuildPathTable(fn *ssa.Function, opts PathOpts) *PathTable {
 	for i, p := range fn.Params {
 		st.params[p] = fmt.Sprintf("p%d", i)
 	}
+	// a captured struct whose fields were set once when the closure was made reads field by field like
+	// captured single-assignment variables
+	for _, fv := range fn.FreeVars {
+		if fields := freeStructFields(fv); len(fields) > 0 {
+			base := st.term(fv)
+			for name, val := range fields {
+				st.mem[base+"."+name] = "free:" + val
+			}
+		}
+	}
 	type cont func(st *pstate, rets []string)
 	var runFrom func(st *pstate, b *ssa.BasicBlock, pred *ssa.BasicBlock, start int, k cont)
 	run := func(st *pstate, b *ssa.BasicBlock, pred *ssa.BasicBlock, k cont) { runFrom(st, b, pred, 0, k) }
@@ -210,7 +220,15 @@ func BuildPathTable(fn *ssa.Function, opts PathOpts) *PathTable {
 				if _, op := lockCallInfo(&x.Call); op != "" {
 					st.epoch++
 				}
-				if callee := x.Call.StaticCallee(); callee != nil && st.depth < 2 && inlinable(callee, fn, opts) {
+				callee := x.Call.StaticCallee()
+				viaTable := false
+				if callee == nil && !x.Call.IsInvoke() {
+					// a function value read from a constant table
+					if kf, ok := knownFuncTerms[st.term(x.Call.Value)]; ok && len(kf.Blocks) > 0 && len(kf.Blocks) <= 60 && kf != fn && (kf.Object() == nil || !IsReferenceFunc(kf)) {
+						callee, viaTable = kf, true // a literal (or a new function): entered; a reference function stays a call
+					}
+				}
+				if callee != nil && st.depth < 2 && (viaTable || inlinable(callee, fn, opts)) {
 					// a helper that did not exist on the reference tree (an extracted function): its body is
 					// entered so that the table is the one of the code before the extraction
 					for i, prm := range callee.Params {
@@ -243,6 +261,49 @@ func BuildPathTable(fn *ssa.Function, opts PathOpts) *PathTable {
 					st.vals[x] = st.term(x)
 				}
 			case *ssa.Lookup:
+				// a lookup in a constant package-level table is the switch it stands for
+				if ld, ok := x.X.(*ssa.UnOp); ok && ld.Op == token.MUL {
+					if g, ok := ld.X.(*ssa.Global); ok {
+						if tab := constTableOf(g); tab != nil {
+							if brs := tab.expand(st.term(x.Index), x.Index.Type()); len(brs) > 0 && len(brs) <= 64 {
+								look, blk, next := x, b, idx+1
+								for _, br := range brs {
+									s2 := st.clone()
+									feasible := true
+									for _, a := range br.atoms {
+										if a.Term == "true" || a.Term == "false" {
+											if (a.Term == "true") != a.Val {
+												feasible = false
+											}
+											continue
+										}
+										if v, known := s2.known(a.Term); known {
+											if v != a.Val {
+												feasible = false
+											}
+											continue
+										}
+										s2.atoms = append(s2.atoms, a)
+									}
+									if !feasible {
+										continue
+									}
+									if look.CommaOk {
+										okT := "false"
+										if br.found {
+											okT = "true"
+										}
+										s2.tuples[look] = []string{br.val, okT}
+									} else {
+										s2.vals[look] = br.val
+									}
+									runFrom(s2, blk, pred, next, k)
+								}
+								return
+							}
+						}
+					}
+				}
 				lt := st.term(x)
 				st.vals[x] = lt
 				if _, isMap := x.X.Type().Underlying().(*types.Map); isMap {
@@ -556,6 +617,10 @@ func (s *pstate) callTerm(c *ssa.CallCommon) string {
 		name = b.Name()
 	} else {
 		name = "dyn:" + s.term(c.Value)
+		// a function value read from a constant table is that function
+		if _, ok := knownFuncTerms[name[4:]]; ok {
+			name = name[4:]
+		}
 	}
 	return name + "(" + strings.Join(args, ", ") + ")"
 }
@@ -611,7 +676,11 @@ func (s *pstate) term(v ssa.Value) string {
 	case *ssa.FieldAddr:
 		return "&" + deref(s.term(x.X)) + "." + fieldName(x.X.Type(), x.Field)
 	case *ssa.Field:
-		return s.term(x.X) + "." + fieldNameStruct(x.X.Type(), x.Field)
+		base, fname := s.term(x.X), fieldNameStruct(x.X.Type(), x.Field)
+		if v, ok := structField(base, fname, x.Type()); ok {
+			return v
+		}
+		return base + "." + fname
 	case *ssa.IndexAddr:
 		return "&" + deref(s.term(x.X)) + "[" + s.term(x.Index) + "]"
 	case *ssa.Index:
@@ -632,6 +701,28 @@ func (s *pstate) term(v ssa.Value) string {
 			addr := s.term(x.X)
 			if val, ok := s.mem[addr]; ok {
 				return val
+			}
+			// a field of a struct value stored as a whole (a by-value parameter or copy)
+			if i := strings.LastIndex(addr, "."); i > 0 {
+				if pv, ok := s.mem[addr[:i]]; ok {
+					if v, ok := structField(pv, addr[i+1:], x.Type()); ok {
+						return v
+					}
+				}
+			}
+			// a whole struct read from a local whose fields were stored one by one (a composite literal)
+			if st, ok := x.Type().Underlying().(*types.Struct); ok && (strings.HasPrefix(addr, "&local") || strings.HasPrefix(addr, "&free:")) {
+				var parts []string
+				n, _ := x.Type().(*types.Named)
+				for i := 0; i < st.NumFields(); i++ {
+					fn := canonField(n, st, i)
+					if fv, ok := s.mem[addr+"."+fn]; ok {
+						parts = append(parts, fn+": "+fv)
+					}
+				}
+				if len(parts) > 0 || strings.HasPrefix(addr, "&local:complit@") {
+					return structTypeName(x.Type()) + "{" + strings.Join(parts, ", ") + "}"
+				}
 			}
 			if strings.HasPrefix(addr, "&") {
 				if strings.HasPrefix(addr, "&local") {
@@ -723,6 +814,87 @@ func (s *pstate) term(v ssa.Value) string {
 	return "?" + v.Name()
 }
 
+// structField reads field name out of a struct-literal term "T{a: x, b: y}"; a field that is not listed has
+// the zero value of its type ft. ok is false when term is not a struct-literal term.
+func structField(term, name string, ft types.Type) (string, bool) {
+	if !strings.HasSuffix(term, "}") {
+		return "", false
+	}
+	// the brace that matches the final one
+	open, depth := -1, 0
+	for i := len(term) - 1; i >= 0 && open < 0; i-- {
+		switch term[i] {
+		case '}':
+			depth++
+		case '{':
+			depth--
+			if depth == 0 {
+				open = i
+			}
+		}
+	}
+	if open <= 0 || strings.ContainsAny(term[:open], "( \"{") {
+		return "", false
+	}
+	body := term[open+1 : len(term)-1]
+	depth, start, inStr := 0, 0, false
+	var fields []string
+	for i := 0; i < len(body); i++ {
+		c := body[i]
+		switch {
+		case inStr:
+			if c == '\\' {
+				i++
+			} else if c == '"' {
+				inStr = false
+			}
+		case c == '"':
+			inStr = true
+		case c == '(' || c == '{' || c == '[':
+			depth++
+		case c == ')' || c == '}' || c == ']':
+			depth--
+		case c == ',' && depth == 0:
+			fields = append(fields, strings.TrimSpace(body[start:i]))
+			start = i + 1
+		}
+	}
+	if strings.TrimSpace(body[start:]) != "" {
+		fields = append(fields, strings.TrimSpace(body[start:]))
+	}
+	for _, f := range fields {
+		if strings.HasPrefix(f, name+": ") {
+			return f[len(name)+2:], true
+		}
+	}
+	return zeroTerm(ft), true
+}
+
+func zeroTerm(t types.Type) string {
+	switch u := t.Underlying().(type) {
+	case *types.Basic:
+		switch {
+		case u.Info()&types.IsBoolean != 0:
+			return "false"
+		case u.Info()&types.IsString != 0:
+			return `""`
+		case u.Info()&types.IsNumeric != 0:
+			return "0"
+		}
+	case *types.Struct:
+		return structTypeName(t) + "{}"
+	}
+	return "nil"
+}
+
+// structTypeName names a struct type in struct-literal terms: the type's name, "struct" for an unnamed one.
+func structTypeName(t types.Type) string {
+	if _, ok := t.(*types.Named); ok {
+		return typeShort(t)
+	}
+	return "struct"
+}
+
 func deref(t string) string {
 	// the term of a pointer value p used as base of a field: p.f ; an address
 	// term &x used as base: x.f
@@ -768,6 +940,9 @@ func constTerm(c *ssa.Const) string {
 	if c.Value == nil {
 		if _, ok := c.Type().Underlying().(*types.Basic); ok {
 			return "zero"
+		}
+		if _, ok := c.Type().Underlying().(*types.Struct); ok {
+			return structTypeName(c.Type()) + "{}" // the zero value of a struct type
 		}
 		return "nil"
 	}
@@ -1026,33 +1201,7 @@ func canonFreeVar(fv *ssa.FreeVar, depth int) string {
 			}
 			return fv.Name()
 		}
-		scratch := &pstate{fn: parent, mem: map[string]string{}, phi: map[*ssa.Phi]string{}, vals: map[ssa.Value]string{},
-			visits: map[*ssa.BasicBlock]int{}, params: map[*ssa.Parameter]string{}, tuples: map[ssa.Value][]string{}}
-		for i, p := range parent.Params {
-			scratch.params[p] = fmt.Sprintf("outer.p%d", i)
-		}
-		// single-assignment locals of the enclosing function are read through
-		for _, pb := range parent.Blocks {
-			for _, in := range pb.Instrs {
-				st, ok := in.(*ssa.Store)
-				if !ok {
-					continue
-				}
-				al, ok := st.Addr.(*ssa.Alloc)
-				if !ok || al.Referrers() == nil {
-					continue
-				}
-				n := 0
-				for _, r := range *al.Referrers() {
-					if s2, ok := r.(*ssa.Store); ok && s2.Addr == ssa.Value(al) {
-						n++
-					}
-				}
-				if n == 1 {
-					scratch.mem[scratch.term(al)] = scratch.term(st.Val)
-				}
-			}
-		}
+		scratch := outerScratch(parent)
 		t := scratch.term(stored[0])
 		if len(t) > 160 || strings.Contains(t, "phi?") || strings.Contains(t, "zero:") {
 			return fv.Name()
@@ -1060,6 +1209,123 @@ func canonFreeVar(fv *ssa.FreeVar, depth int) string {
 		return "⟨" + t + "⟩"
 	}
 	return fv.Name()
+}
+
+// outerScratch is a path state of the enclosing function in which parameters print as outer.pN and
+// single-assignment locals are read through.
+func outerScratch(parent *ssa.Function) *pstate {
+	scratch := &pstate{fn: parent, mem: map[string]string{}, phi: map[*ssa.Phi]string{}, vals: map[ssa.Value]string{},
+		visits: map[*ssa.BasicBlock]int{}, params: map[*ssa.Parameter]string{}, tuples: map[ssa.Value][]string{}}
+	for i, p := range parent.Params {
+		scratch.params[p] = fmt.Sprintf("outer.p%d", i)
+	}
+	for _, pb := range parent.Blocks {
+		for _, in := range pb.Instrs {
+			st, ok := in.(*ssa.Store)
+			if !ok {
+				continue
+			}
+			al, ok := st.Addr.(*ssa.Alloc)
+			if !ok || al.Referrers() == nil {
+				continue
+			}
+			n := 0
+			for _, r := range *al.Referrers() {
+				if s2, ok := r.(*ssa.Store); ok && s2.Addr == ssa.Value(al) {
+					n++
+				}
+			}
+			if n == 1 {
+				scratch.mem[scratch.term(al)] = scratch.term(st.Val)
+			}
+		}
+	}
+	return scratch
+}
+
+// freeStructFields: when free variable fv is bound (through any chain of closures) to a struct-typed local of
+// an enclosing function whose fields are each stored once and which is never stored as a whole, the value of
+// each field in the vocabulary of canonFreeVar ("⟨outer term⟩"), by field name.
+func freeStructFields(fv *ssa.FreeVar) map[string]string {
+	var binding ssa.Value = fv
+	var parent *ssa.Function
+	for depth := 0; depth < 4; depth++ {
+		f, ok := binding.(*ssa.FreeVar)
+		if !ok {
+			break
+		}
+		fn := f.Parent()
+		if fn == nil || fn.Parent() == nil {
+			return nil
+		}
+		parent = fn.Parent()
+		binding = bindingOf(parent, fn, f)
+	}
+	al, ok := binding.(*ssa.Alloc)
+	if !ok || parent == nil || al.Referrers() == nil {
+		return nil
+	}
+	pt, ok := al.Type().Underlying().(*types.Pointer)
+	if !ok {
+		return nil
+	}
+	st, ok := pt.Elem().Underlying().(*types.Struct)
+	if !ok {
+		return nil
+	}
+	n, _ := pt.Elem().(*types.Named)
+	scratch := outerScratch(parent)
+	out := map[string]string{}
+	for _, r := range *al.Referrers() {
+		switch x := r.(type) {
+		case *ssa.Store:
+			if x.Addr == ssa.Value(al) {
+				return nil // assigned as a whole somewhere
+			}
+		case *ssa.FieldAddr:
+			if x.Referrers() == nil {
+				continue
+			}
+			var vals []ssa.Value
+			for _, fr := range *x.Referrers() {
+				if s2, ok := fr.(*ssa.Store); ok && s2.Addr == ssa.Value(x) {
+					vals = append(vals, s2.Val)
+				}
+			}
+			if len(vals) == 0 {
+				continue
+			}
+			name := canonField(n, st, x.Field)
+			if len(vals) > 1 {
+				return nil
+			}
+			if _, dup := out[name]; dup {
+				return nil
+			}
+			t := scratch.term(vals[0])
+			if len(t) > 160 || strings.Contains(t, "phi?") || strings.Contains(t, "zero:") {
+				return nil
+			}
+			out[name] = "⟨" + t + "⟩"
+		}
+	}
+	// a closure that writes a field makes it multi-valued
+	for _, af := range parent.AnonFuncs {
+		for _, v := range af.FreeVars {
+			if bindingOf(parent, af, v) == ssa.Value(al) {
+				for _, b := range af.Blocks {
+					for _, in := range b.Instrs {
+						if s2, ok := in.(*ssa.Store); ok {
+							if fa, ok := s2.Addr.(*ssa.FieldAddr); ok && fa.X == ssa.Value(v) {
+								return nil
+							}
+						}
+					}
+				}
+			}
+		}
+	}
+	return out
 }
 
 func assignsFreeVar(fn *ssa.Function, fv *ssa.FreeVar) bool {
